@@ -188,7 +188,20 @@ struct Job {
 }
 
 /// phase A: run the real code, check the type clauses, emit jobs for the solver
-fn native_phase(rep: &mut Report, ctx: &mut Context, sh: &Sh, idx: usize, jobs: &mut Vec<Job>) {
+/// simplifier instances that live as long as the Context of a sub-chunk: their caches carry the history of all
+/// earlier shapes (a result must not depend on what was simplified before - and must still be right)
+pub struct Shared {
+    sparse: Simplifier<SparseExprMap<Option<ExprRef>>>,
+    dense: Simplifier<DenseExprMetaData<Option<ExprRef>>>,
+}
+
+impl Shared {
+    pub fn new() -> Self {
+        Shared { sparse: Simplifier::new(SparseExprMap::default()), dense: Simplifier::new(DenseExprMetaData::default()) }
+    }
+}
+
+fn native_phase(rep: &mut Report, ctx: &mut Context, shared: &mut Shared, sh: &Sh, idx: usize, jobs: &mut Vec<Job>) {
     rep.count("programs", 1);
     let e = sh.build(ctx);
     let in_ty = match RefEnc::type_of(ctx, e) {
@@ -219,9 +232,11 @@ fn native_phase(rep: &mut Report, ctx: &mut Context, sh: &Sh, idx: usize, jobs: 
         patronus::system::transform::simplify_expressions(ctx, &mut sys);
         let s4 = sys.outputs[0].expr;
         let s5 = if in_ty == Ty::BV(1) { Some(sys.bad_states[0]) } else { None };
-        (s1, s2, s3, s4, s5)
+        // long-lived instances (history of all earlier shapes of this sub-chunk in their caches)
+        let s6 = if idx % 2 == 0 { shared.sparse.simplify(ctx, e) } else { shared.dense.simplify(ctx, e) };
+        (s1, s2, s3, s4, s5, s6)
     });
-    let (s1, s2, s3, s4, s5) = match results {
+    let (s1, s2, s3, s4, s5, s6) = match results {
         Ok(r) => r,
         Err((loc, msg)) => {
             rep.count("panics", 1);
@@ -247,7 +262,7 @@ fn native_phase(rep: &mut Report, ctx: &mut Context, sh: &Sh, idx: usize, jobs: 
         }
     };
     let mut outs: Vec<(&'static str, ExprRef)> = vec![("single", s1)];
-    for (n, s) in [("sparse", s2), ("dense", s3), ("system-output", s4)] {
+    for (n, s) in [("sparse", s2), ("dense", s3), ("system-output", s4), ("long-lived-instance", s6)] {
         if !outs.iter().any(|(_, o)| *o == s) {
             outs.push((n, s));
         } else {
@@ -355,10 +370,11 @@ fn run_chunk(w: &mut Worker, chunk: &[Sh], base: usize, thorough: bool) {
     // sub-chunks share a Context (hash-consing keeps it small) and one batch
     for (sci, sub) in chunk.chunks(100).enumerate() {
         let mut ctx = Context::default();
+        let mut shared = Shared::new();
         let mut jobs = vec![];
         for (i, sh) in sub.iter().enumerate() {
             crate::panics::set_context(format!("C01 shape {}", sh.show()));
-            native_phase(&mut w.rep, &mut ctx, sh, base + sci * 100 + i, &mut jobs);
+            native_phase(&mut w.rep, &mut ctx, &mut shared, sh, base + sci * 100 + i, &mut jobs);
         }
         // phase B: stage 1, abstract miters, pipelined
         let mut bodies = vec![];
